@@ -1145,7 +1145,52 @@ def degenerate_cases(algos=None):
                 c.update(endpoints=[ep(nt, "low", 0), dict(ep(nt, "high", 0), addr_range={"start": 0xFFFF_0000, "end": 0x1_0000_0000})],
                          routers=[{"name": "xbar"}], connections=[{"src": "low", "dst": "xbar"}, {"src": "high", "dst": "xbar"}])
                 yield f"degenerate:space-edges:{tag}", c
+                # pure roles: only managers next to one subordinate, and the other way round
+                c = base("roles", nt, algo)
+                c.update(endpoints=[ep(nt, "m", 0, role="mgr", array=[3]), ep(nt, "s", 0x8000, role="sbr")], routers=[{"name": "x"}],
+                         connections=[{"src": "m", "dst": "x", "src_range": [[0, 2]], "allow_multi": True}, {"src": "s", "dst": "x"}])
+                yield f"degenerate:managers+1:{tag}", c
+                c = base("roles", nt, algo)
+                c.update(endpoints=[ep(nt, "s", 0x8000, role="sbr", array=[3]), ep(nt, "m", 0, role="mgr")], routers=[{"name": "x"}],
+                         connections=[{"src": "s", "dst": "x", "src_range": [[0, 2]], "allow_multi": True}, {"src": "m", "dst": "x"}])
+                yield f"degenerate:subordinates+1:{tag}", c
+                # a one-byte window at 0 and one at the very top of a 64-bit space
+                c = base("aw64", nt, algo)
+                for p_ in c["protocols"]:
+                    p_["addr_width"] = 64
+                c.update(endpoints=[ep(nt, "a", 0, size=1), dict(ep(nt, "b", 0), addr_range={"start": (1 << 64) - 1, "end": 1 << 64})],
+                         routers=[{"name": "x"}], connections=[{"src": "a", "dst": "x"}, {"src": "b", "dst": "x"}])
+                yield f"degenerate:one-byte-windows:{tag}", c
+                # fan-out-one tree with an endpoint on each level
+                c = base("t11", nt, algo)
+                c.update(endpoints=[ep(nt, "a", 0x1000), ep(nt, "b", 0x2000)], routers=[{"name": "r", "tree": [1, 1]}],
+                         connections=[{"src": "a", "dst": "r", "dst_lvl": 0}, {"src": "b", "dst": "r", "dst_lvl": 1}])
+                yield f"degenerate:tree[1,1]-both-levels:{tag}", c
             else:
+                # XY: a single router with boundary endpoints on every subset of its sides
+                import itertools
+                for k in range(0, 5):
+                    for sides in itertools.combinations(["North", "East", "South", "West"], k):
+                        c = base("x11", nt, "XY")
+                        eps = [ep(nt, "tile", 0x10000, array=[1, 1])]
+                        conns = [{"src": "tile", "dst": "router", "src_range": [[0, 0], [0, 0]], "dst_range": [[0, 0], [0, 0]],
+                                  "dst_dir": "Eject"}]
+                        for j, sd in enumerate(sides):
+                            eps.append(ep(nt, "b" + sd.lower(), 0x1000 * (j + 1)))
+                            conns.append({"src": "b" + sd.lower(), "dst": "router", "dst_idx": [0, 0], "dst_dir": sd})
+                        c.update(endpoints=eps, routers=[{"name": "router", "array": [1, 1], "degree": 5}], connections=conns)
+                        yield f"degenerate:mesh1x1+{'+'.join(sides) or 'none'}:{tag}", c
+                # XY: boundary endpoints only, nothing on the local ports
+                for (m, n, sd) in ((2, 1, "North"), (2, 1, "South"), (1, 2, "East"), (1, 2, "West"), (2, 2, "West")):
+                    c = base("bo", nt, "XY")
+                    cnt = m if sd in ("North", "South") else n
+                    if sd in ("North", "South"):
+                        rr = [[0, m - 1], [0, 0]] if sd == "South" else [[0, m - 1], [n - 1, n - 1]]
+                    else:
+                        rr = [[0, 0], [0, n - 1]] if sd == "West" else [[m - 1, m - 1], [0, n - 1]]
+                    c.update(endpoints=[ep(nt, "mem", 0x10000, array=[cnt])], routers=[{"name": "router", "array": [m, n], "degree": 5}],
+                             connections=[{"src": "mem", "dst": "router", "src_range": [[0, cnt - 1]], "dst_range": rr, "dst_dir": sd}])
+                    yield f"degenerate:boundary-only:{m}x{n}:{sd}:{tag}", c
                 # XY: one router; one row / one column of routers, with endpoints on the local ports and on one side
                 for (m, n) in ((1, 1), (1, 3), (3, 1)):
                     c = base("line", nt, "XY")
